@@ -25,7 +25,7 @@ def cstr(s):
     return "[" + "; ".join(f"{ord(c)}%N" for c in s) + "]"
 
 
-def run_cases(tag, preamble, case_type, cases, checker, shard=400, timeout=900):
+def run_cases(tag, preamble, case_type, cases, checker, shard=400, timeout=900, extra_q=()):
     """cases: list of Coq terms of type case_type; checker : case_type -> bool (Coq term).
     Returns (bad_indices, raw_errors)."""
     os.makedirs(C.SCRATCH, exist_ok=True)
@@ -43,7 +43,7 @@ def run_cases(tag, preamble, case_type, cases, checker, shard=400, timeout=900):
 
     def one(kp):
         k, path = kp
-        rc, out = C.sh(["coqc", "-Q", C.COQ, "RD", path], timeout=timeout)
+        rc, out = C.sh(["coqc", "-Q", C.COQ, "RD"] + [x for d, lp in extra_q for x in ("-Q", d, lp)] + [path], timeout=timeout)
         return k, rc, out
 
     bad, errs = [], []
